@@ -218,6 +218,153 @@ fn other_entries() -> Vec<&'static str> {
     ]
 }
 
+/// what an attacker can compute from the password file line of the user (the stored string), the
+/// user name and the salt — without the password
+fn attacker_strings(stored: &str, user: &str, salt: &[u8; 4], salt2: &[u8; 4]) -> Vec<(String, &'static str)> {
+    let stripped = stored.strip_prefix("{MD5}").unwrap_or(stored).to_string();
+    let inner = hex(&Md5::digest([stored.as_bytes(), user.as_bytes()].concat()));
+    let d = pg_digest(stored, user, salt);
+    vec![
+        (stored.to_string(), "atk_stored_verbatim"),
+        (format!("md5{}", d), "atk_digest_of_stored"),
+        (d.clone(), "atk_digest_of_stored_bare"),
+        (format!("md5{}", d.to_uppercase()), "atk_digest_of_stored_uppercase"),
+        (format!("md5{}", inner), "atk_inner_digest_of_stored"),
+        (inner.clone(), "atk_inner_digest_of_stored_bare"),
+        (format!("md5{}", pg_digest(stored, user, salt2)), "atk_digest_of_stored_other_salt"),
+        (format!("md5{}", pg_digest(stored, &format!("{}2", user), salt)), "atk_digest_of_stored_other_user"),
+        (format!("md5{}", pg_digest(&format!("{{MD5}}{}", stored), user, salt)), "atk_digest_of_tagged_stored"),
+        (format!("{{MD5}}{}", stored), "atk_md5tag_stored"),
+        (format!("md5{}", stored), "atk_md5prefix_stored"),
+        (stripped, "atk_stored_without_tag"),
+        (stored.to_uppercase(), "atk_stored_uppercase"),
+        (user.to_string(), "atk_user_name"),
+        (format!("md5{}", user), "atk_md5prefix_user_name"),
+        (format!("md5{}", pg_digest(user, user, salt)), "atk_digest_of_user_name"),
+        (format!("md5{}", pg_digest("", user, salt)), "atk_digest_of_empty_password"),
+        (hex(salt), "atk_salt_hex"),
+        (String::from_utf8_lossy(salt).to_string(), "atk_salt_bytes"),
+    ]
+}
+
+/// store built through the API: `add_user_hashed` for `{MD5}` / Argon2 (pool) / raw values
+/// (including values that look like digests), optionally one user through `add_user`
+fn gen_api_store(r: &mut Rng, pool: &[(String, String)], others: &[&'static str], salt: &[u8; 4], with_add_user: bool, rep: &mut Report) -> (PasswordStore, Vec<User>, &'static str) {
+    let mut users: Vec<User> = vec![];
+    let n = r.range(1, 5) as usize;
+    while users.len() < n {
+        let name = match r.below(6) {
+            0 => "postgres".to_string(),
+            1 => "".to_string(),
+            _ => gen_text(r, 12),
+        };
+        if users.iter().any(|u| u.name == name) {
+            continue;
+        }
+        let (stored, entry) = match r.below(12) {
+            0..=4 => {
+                let p = if r.chance(1, 8) { "".to_string() } else { gen_text(r, 16) };
+                (format!("{{MD5}}{}", p), Entry::Md5(p))
+            }
+            5..=7 if !pool.is_empty() => {
+                let (p, h) = r.pick(pool).clone();
+                (h, Entry::Argon(p))
+            }
+            // raw values that look like what travels on the wire: 32 hex digits, "md5" + digits
+            8 => (pg_digest("secret", &name, salt), Entry::Other),
+            9 => (format!("md5{}", pg_digest("secret", &name, salt)), Entry::Other),
+            _ => (r.pick(others).to_string(), Entry::Other),
+        };
+        users.push(User { name, stored, entry });
+    }
+    let mut store = build(&users);
+    if with_add_user {
+        let name = format!("added{}", r.below(1000));
+        let pw = gen_text(r, 10);
+        if !users.iter().any(|u| u.name == name) {
+            match store.add_user(name.clone(), &pw) {
+                Ok(()) => {
+                    let stored = store.get_password(&name).cloned().unwrap_or_default();
+                    users.push(User { name, stored, entry: Entry::Argon(pw) });
+                }
+                Err(e) => rep.fail(FailKind::Oracle, None, "add_user failed", &format!("user {:?} password {:?}: {}", name, pw, e)),
+            }
+        }
+    }
+    (store, users, if with_add_user { "api+add_user" } else { "api" })
+}
+
+/// store loaded from a generated password file: `{MD5}` lines and `$argon2` lines are kept
+/// verbatim, a cleartext line is hashed with Argon2 on load, comments and blank lines skipped
+fn gen_file_store(r: &mut Rng, pool: &[(String, String)], path: &std::path::Path, rep: &mut Report) -> (PasswordStore, Vec<User>, &'static str) {
+    let word = |r: &mut Rng, min: i64, max: i64| -> String {
+        let chars = b"abcdefghijklmnopqrstuvwxyzABCDEFXYZ0123456789_-$/+={}.";
+        (0..r.range(min, max)).map(|_| *r.pick(chars) as char).collect()
+    };
+    let mut lines = vec!["# generated password file".to_string(), "".to_string()];
+    let mut expect: Vec<(String, Entry)> = vec![];
+    let n = r.range(1, 4) as usize;
+    let mut cleartext_used = false;
+    while expect.len() < n {
+        let name: String = word(r, 1, 8).chars().filter(|c| c.is_ascii_alphanumeric() || *c == '_').collect();
+        if name.is_empty() || expect.iter().any(|(k, _)| *k == name) {
+            continue;
+        }
+        let (value, entry) = match r.below(8) {
+            0..=2 => {
+                let p = word(r, 0, 12);
+                (format!("{{MD5}}{}", p), Entry::Md5(p))
+            }
+            3 | 4 if !pool.is_empty() => {
+                let (p, h) = r.pick(pool).clone();
+                (h, Entry::Argon(p))
+            }
+            5 => (format!("$argon2id$v=19$m=19456,t=2,p=1${}", word(r, 0, 10)), Entry::Other),
+            _ if !cleartext_used => {
+                // cleartext line: hashed with Argon2 on load; must not look like the other formats
+                cleartext_used = true;
+                let p = format!("c{}", word(r, 0, 10).replace('$', "s").replace('{', "b"));
+                (p.clone(), Entry::Argon(p))
+            }
+            _ => (format!("{{MD5}}{}", name), Entry::Md5(name.clone())),
+        };
+        lines.push(format!("{}{}:{}{}", if r.chance(1, 4) { "  " } else { "" }, name, value, if r.chance(1, 4) { "  " } else { "" }));
+        if r.chance(1, 4) {
+            lines.push("# comment".into());
+        }
+        expect.push((name, entry));
+    }
+    let _ = std::fs::write(path, lines.join("\n") + "\n");
+    let loaded = catch_unwind(AssertUnwindSafe(|| PasswordStore::load_from_file(path)));
+    let _ = std::fs::remove_file(path);
+    match loaded {
+        Ok(Ok(store)) => {
+            let mut users = vec![];
+            for (name, entry) in expect {
+                match store.get_password(&name) {
+                    Some(stored) => {
+                        let ok = match &entry {
+                            Entry::Md5(p) => *stored == format!("{{MD5}}{}", p),
+                            Entry::Argon(_) => stored.starts_with("$argon2"),
+                            Entry::Other => stored.starts_with("$argon2"),
+                        };
+                        if !ok {
+                            rep.fail(FailKind::Oracle, None, "load_from_file stored a line in an unexpected form", &format!("file:\n{}\nuser {:?} stored {:?}", lines.join("\n"), name, stored));
+                        }
+                        users.push(User { name, stored: stored.clone(), entry });
+                    }
+                    None => rep.fail(FailKind::Oracle, None, "load_from_file lost a user", &format!("file:\n{}\nuser {:?}", lines.join("\n"), name)),
+                }
+            }
+            (store, users, "password_file")
+        }
+        other => {
+            rep.fail(FailKind::Oracle, None, "load_from_file rejected (or panicked on) a well-formed password file", &format!("file:\n{}\nresult: {}", lines.join("\n"), match other { Ok(Err(e)) => e.to_string(), _ => "panic".into() }));
+            (PasswordStore::new(), vec![], "password_file")
+        }
+    }
+}
+
 fn build(users: &[User]) -> PasswordStore {
     let mut s = PasswordStore::new();
     for u in users {
@@ -290,6 +437,22 @@ fn main() {
         let d = pg_digest("secret123", "postgres", &[1, 2, 3, 4]);
         cx.verify_md5_case(&s, &users, "postgres", &format!("md5{}", d), &[1, 2, 3, 4], "digest_of_argon2_users_password");
         cx.verify_md5_case(&s, &users, "postgres", &d, &[1, 2, 3, 4], "bare_digest_of_argon2_users_password");
+        // pass-the-hash: responses computed from the stored Argon2 string alone must never be accepted
+        for (resp, class) in attacker_strings(&stored, "postgres", &[1, 2, 3, 4], &[1, 2, 3, 5]) {
+            cx.verify_md5_case(&s, &users, "postgres", &resp, &[1, 2, 3, 4], class);
+        }
+        for (pw, class) in attacker_strings(&stored, "postgres", &[1, 2, 3, 4], &[1, 2, 3, 5]).into_iter().take(6) {
+            cx.verify_clear_case(&s, &users, "postgres", &pw, class);
+        }
+        // raw values stored through add_user_hashed: cleartext-looking, 32 hex digits, "md5" + digits
+        for raw in ["secret".to_string(), pg_digest("secret", "raw", &[1, 2, 3, 4]), format!("md5{}", pg_digest("secret", "raw", &[1, 2, 3, 4]))] {
+            let users = vec![User { name: "raw".into(), stored: raw.clone(), entry: Entry::Other }];
+            let s = build(&users);
+            for (resp, class) in attacker_strings(&raw, "raw", &[1, 2, 3, 4], &[1, 2, 3, 5]) {
+                cx.verify_md5_case(&s, &users, "raw", &resp, &[1, 2, 3, 4], class);
+                cx.verify_clear_case(&s, &users, "raw", &resp, class);
+            }
+        }
     }
 
     // ---- the recorded finding, reproduced on every run (the repo's own test vector) ----
@@ -306,47 +469,28 @@ fn main() {
         cx.verify_md5_case(&s, &users, "u", &pg_digest("p", "u", &[1, 2, 3, 4]), &[1, 2, 3, 4], "bare");
     }
 
-    // ---- generated stores ----
+    // ---- generated stores: every storage route × legitimate, near-miss and attacker responses ----
     let rounds = args.n(150, 3000);
     let others = other_entries();
     for i in 0..rounds {
         let mut r = rng.fork();
-        let mut users: Vec<User> = vec![];
-        let n = r.range(1, 5) as usize;
-        while users.len() < n {
-            let name = match r.below(6) {
-                0 => "postgres".to_string(),
-                1 => "".to_string(),
-                _ => gen_text(&mut r, 12),
-            };
-            if users.iter().any(|u| u.name == name) {
-                continue;
-            }
-            let (stored, entry) = match r.below(10) {
-                0..=4 => {
-                    let p = if r.chance(1, 8) { "".to_string() } else { gen_text(&mut r, 16) };
-                    (format!("{{MD5}}{}", p), Entry::Md5(p))
-                }
-                5..=7 if !pool.is_empty() => {
-                    let (p, h) = r.pick(&pool).clone();
-                    (h, Entry::Argon(p))
-                }
-                _ => (r.pick(&others).to_string(), Entry::Other),
-            };
-            users.push(User { name, stored, entry });
-        }
-        let store = build(&users);
-        if i < 3 {
-            cx.rep.sample(serde_json::json!({"store": users.iter().map(|u| format!("{:?} -> {:?}", u.name, u.stored.chars().take(40).collect::<String>())).collect::<Vec<_>>()}));
-        }
         let salt = [r.below(256) as u8, r.below(256) as u8, r.below(256) as u8, r.below(256) as u8];
         let salt2 = [salt[0] ^ 1, salt[1], salt[2], salt[3]];
+        let (store, users, route) = if i % 3 == 2 { gen_file_store(&mut r, &pool, &args.scratch.join(format!("pw-{}.txt", i)), &mut cx.rep) } else { gen_api_store(&mut r, &pool, &others, &salt, i % 4 == 0, &mut cx.rep) };
+        cx.rep.count(&format!("store_route_{}", route));
+        if i < 3 {
+            cx.rep.sample(serde_json::json!({"route": route, "store": users.iter().map(|u| format!("{:?} -> {:?}", u.name, u.stored.chars().take(40).collect::<String>())).collect::<Vec<_>>()}));
+        }
+        if users.is_empty() {
+            continue;
+        }
         let mut names: Vec<String> = users.iter().map(|u| u.name.clone()).collect();
         names.push("nobody".into());
         names.push(format!("{}x", users[0].name));
         for name in &names {
+            let entry = users.iter().find(|u| &u.name == name);
             // the password whose digest a client would send: the entry's, or some password
-            let p = match users.iter().find(|u| &u.name == name).map(|u| &u.entry) {
+            let p = match entry.map(|u| &u.entry) {
                 Some(Entry::Md5(p)) | Some(Entry::Argon(p)) => p.clone(),
                 _ => "secret".to_string(),
             };
@@ -354,7 +498,7 @@ fn main() {
             let other_user = pg_digest(&p, &format!("{}2", name), &salt);
             let mut trunc = format!("md5{}", d);
             trunc.pop();
-            let resps: Vec<(String, &str)> = vec![
+            let mut resps: Vec<(String, &str)> = vec![
                 (format!("md5{}", d), "correct"),
                 (d.clone(), "bare"),
                 (format!("md5{}", d.to_uppercase()), "uppercase_digits"),
@@ -371,17 +515,30 @@ fn main() {
                 (p.clone(), "the_password_itself"),
                 (gen_text(&mut r, 40), "random"),
             ];
+            // attacker: everything computable from the password file, the user name and the salt
+            let stored = entry.map(|u| u.stored.clone()).unwrap_or_default();
+            let atk = attacker_strings(&stored, name, &salt, &salt2);
+            resps.extend(atk.iter().cloned());
             for (resp, class) in &resps {
                 cx.verify_md5_case(&store, &users, name, resp, &salt, class);
             }
             // cleartext: few passwords on Argon2 entries (each costs two Argon2 runs), more elsewhere
-            let is_argon = matches!(users.iter().find(|u| &u.name == name).map(|u| &u.stored), Some(s) if PasswordHash::new(s).is_ok());
+            let is_argon = matches!(entry.map(|u| &u.stored), Some(s) if PasswordHash::new(s).is_ok());
             let mut pws: Vec<(String, &str)> = vec![(p.clone(), "correct"), (format!("{}x", p), "extended")];
             if !is_argon || r.chance(1, 3) {
                 pws.push(("".into(), "empty"));
                 pws.push((p.to_uppercase(), "case"));
                 pws.push((gen_text(&mut r, 12), "random"));
                 pws.push((format!("md5{}", d), "md5_response"));
+            }
+            if is_argon {
+                // the stored string itself always, two more attacker strings at random
+                pws.push(atk[0].clone());
+                for _ in 0..2 {
+                    pws.push(r.pick(&atk).clone());
+                }
+            } else {
+                pws.extend(atk.iter().cloned());
             }
             for (pw, class) in &pws {
                 cx.verify_clear_case(&store, &users, name, pw, class);
